@@ -327,7 +327,9 @@ Inductive src :=
 | SNew (ev : bool) (tag : Z)
 | SNil.
 
-Inductive usekind := UTag | UCall | UUuid | ULen | UDLen | UOptTag | UShow.
+(* UAtt: read the constant field (7) of the attachment every resource carries, through a reference
+   to that attachment (modelled as a reference to the resource) *)
+Inductive usekind := UTag | UCall | UUuid | ULen | UDLen | UOptTag | UShow | UAtt.
 
 Inductive cmd :=
 | CXfer (d : place) (s : src)           (* move the value of s into d *)
@@ -501,6 +503,7 @@ Definition step (c : cmd) (st : state) : out state :=
                    | UDLen => LInt (Z.of_nat (length (r_kids p) - arr_len (r_kids p)
                                                 - (match peek_kid SlOpt (r_kids p) with Some _ => 1 | None => 0 end)))
                    | UShow => LTree (Some p)
+                   | UAtt => LInt 7
                    end))
       end
   | CShowVar x => Done (add_log st (LTree (assoc x (vars st))))
